@@ -779,7 +779,7 @@ get_load_opcode_for_size (int size)
     case 8:
       return orc_opcode_find_by_name ("loadq");
     default:
-      ORC_ASSERT(0);
+      break;
   }
   return NULL;
 }
@@ -797,7 +797,7 @@ get_loadp_opcode_for_size (int size)
     case 8:
       return orc_opcode_find_by_name ("loadpq");
     default:
-      ORC_ASSERT(0);
+      break;
   }
   return NULL;
 }
@@ -815,7 +815,7 @@ get_store_opcode_for_size (int size)
     case 8:
       return orc_opcode_find_by_name ("storeq");
     default:
-      ORC_ASSERT(0);
+      break;
   }
   return NULL;
 }
@@ -851,6 +851,10 @@ orc_compiler_rewrite_insns (OrcCompiler *compiler)
             var->vartype == ORC_VAR_TYPE_DEST) {
           OrcInstruction *cinsn;
 
+          if (compiler->n_insns >= ORC_N_INSNS) {
+            ORC_COMPILER_ERROR (compiler, "too many instructions after inserting loads and stores");
+            return;
+          }
           cinsn = compiler->insns + compiler->n_insns;
           compiler->n_insns++;
 
@@ -858,6 +862,10 @@ orc_compiler_rewrite_insns (OrcCompiler *compiler)
           cinsn->flags |= ORC_INSN_FLAG_ADDED;
           cinsn->flags &= ~(ORC_INSTRUCTION_FLAG_X2|ORC_INSTRUCTION_FLAG_X4);
           cinsn->opcode = get_load_opcode_for_size (var->size);
+          if (cinsn->opcode == NULL) {
+            ORC_COMPILER_ERROR (compiler, "unsupported array element size %d", var->size);
+            return;
+          }
           cinsn->dest_args[0] = orc_compiler_new_temporary (compiler,
               var->size);
           cinsn->src_args[0] = insn.src_args[i];
@@ -888,12 +896,20 @@ orc_compiler_rewrite_insns (OrcCompiler *compiler)
             insn.src_args[i] = loaded;
             continue;
           }
+          if (compiler->n_insns >= ORC_N_INSNS) {
+            ORC_COMPILER_ERROR (compiler, "too many instructions after inserting loads and stores");
+            return;
+          }
           cinsn = compiler->insns + compiler->n_insns;
           compiler->n_insns++;
 
           cinsn->flags = insn.flags;
           cinsn->flags |= ORC_INSN_FLAG_ADDED;
           cinsn->opcode = get_loadp_opcode_for_size (opcode->src_size[i]);
+          if (cinsn->opcode == NULL) {
+            ORC_COMPILER_ERROR (compiler, "unsupported parameter size %d", opcode->src_size[i]);
+            return;
+          }
           cinsn->dest_args[0] = orc_compiler_new_temporary (compiler,
               opcode->src_size[i] * multiplier);
           if (var->vartype == ORC_VAR_TYPE_CONST) {
@@ -908,6 +924,10 @@ orc_compiler_rewrite_insns (OrcCompiler *compiler)
       }
     }
 
+    if (compiler->n_insns >= ORC_N_INSNS) {
+      ORC_COMPILER_ERROR (compiler, "too many instructions after inserting loads and stores");
+      return;
+    }
     xinsn = compiler->insns + compiler->n_insns;
     memcpy (xinsn, &insn, sizeof(OrcInstruction));
     compiler->n_insns++;
@@ -922,6 +942,10 @@ orc_compiler_rewrite_insns (OrcCompiler *compiler)
         if (var->vartype == ORC_VAR_TYPE_DEST) {
           OrcInstruction *cinsn;
 
+          if (compiler->n_insns >= ORC_N_INSNS) {
+            ORC_COMPILER_ERROR (compiler, "too many instructions after inserting loads and stores");
+            return;
+          }
           cinsn = compiler->insns + compiler->n_insns;
           compiler->n_insns++;
 
@@ -929,6 +953,10 @@ orc_compiler_rewrite_insns (OrcCompiler *compiler)
           cinsn->flags |= ORC_INSN_FLAG_ADDED;
           cinsn->flags &= ~(ORC_INSTRUCTION_FLAG_X2|ORC_INSTRUCTION_FLAG_X4);
           cinsn->opcode = get_store_opcode_for_size (var->size);
+          if (cinsn->opcode == NULL) {
+            ORC_COMPILER_ERROR (compiler, "unsupported array element size %d", var->size);
+            return;
+          }
           cinsn->src_args[0] = orc_compiler_new_temporary (compiler, var->size);
           cinsn->dest_args[0] = xinsn->dest_args[i];
           xinsn->dest_args[i] = cinsn->src_args[0];
@@ -1261,6 +1289,11 @@ orc_compiler_dup_temporary (OrcCompiler *compiler, int var, int j)
 {
   int i = ORC_VAR_T1 + compiler->n_temp_vars + compiler->n_dup_vars;
 
+  if (i >= ORC_N_COMPILER_VARIABLES) {
+    ORC_COMPILER_ERROR (compiler, "too many temporary variables");
+    return var;
+  }
+
   compiler->vars[i].vartype = ORC_VAR_TYPE_TEMP;
   compiler->vars[i].size = compiler->vars[var].size;
   compiler->vars[i].name = orc_malloc (strlen(compiler->vars[var].name) + 10);
@@ -1274,6 +1307,11 @@ static int
 orc_compiler_new_temporary (OrcCompiler *compiler, int size)
 {
   int i = ORC_VAR_T1 + compiler->n_temp_vars + compiler->n_dup_vars;
+
+  if (i >= ORC_N_COMPILER_VARIABLES) {
+    ORC_COMPILER_ERROR (compiler, "too many temporary variables");
+    return ORC_VAR_T1;
+  }
 
   compiler->vars[i].vartype = ORC_VAR_TYPE_TEMP;
   compiler->vars[i].size = size;
